@@ -2,6 +2,16 @@
    so the segmented and the monolithic description of an aperture give the same far field. *)
 From LV Require Import Model.Segment Proofs.FieldP Proofs.PlaneP Proofs.PropagateP.
 
+(* helper.slice_offset: which index expressions give which offset, which are refused *)
+Theorem slice_offset_any_outcome (s : slice_arg) (sr sc : Z) :
+  match slice_offset_any s sr sc with
+  | Ok o => ((s = SlEllipsis \/ s = SlEllFull) /\ o = (0, 0)) \/
+            exists r0 r1 c0 c1, s = SlPair r0 r1 c0 c1 /\
+              o = (r0 + (r1 - r0) / 2 - sr / 2, c0 + (c1 - c0) / 2 - sc / 2)
+  | Err e => e = ValueError /\ s = SlEllOther
+  end.
+Proof. destruct s; cbn; auto. right. now exists r0, r1, c0, c1. Qed.
+
 Section SegmentP.
 Variable S : Scalar.
 Hypothesis Sring : is_ring S.
@@ -142,5 +152,23 @@ Proof.
   unfold to_wavefront. destruct (pw_shape w1) as [sh|]; [|reflexivity].
   destruct (pw_focal w1); cbn [rbind]; try reflexivity;
     apply propagate_dft_shift_ext; cbn [wdata wfocal]; intros f Hf; now rewrite ang_shift_untilted by (now apply H).
+Qed.
+(* what the offset is for: the crop g[r0:r1, c0:c1] carried as a Field at helper.slice_offset of its slice pair occupies
+   exactly the samples of the box, with the parent's values (the parent carried whole, offset (0, 0)) *)
+Theorem slice_offset_places_crop (g : arr S) r0 r1 c0 c1 o tl r c :
+  slice_offset_any (SlPair r0 r1 c0 c1) (nr g) (nc g) = Ok o ->
+  0 <= r0 -> r0 <= r1 -> r1 <= nr g -> 0 <= c0 -> c0 <= c1 -> c1 <= nc g ->
+  embed (mkField (D2 (force (aslice g r0 r1 c0 c1))) (fst o) (snd o) tl) r c
+  = if (r0 <=? r + nr g / 2) && (r + nr g / 2 <? r1) && (c0 <=? c + nc g / 2) && (c + nc g / 2 <? c1)
+    then embed (mkField (D2 (force g)) 0 0 tl) r c else k0.
+Proof.
+  intros E A1 A2 A3 B1 B2 B3. cbn [slice_offset_any] in E. injection E as <-.
+  change (r0 + (r1 - r0) / 2 - nr g / 2, c0 + (c1 - c0) / 2 - nc g / 2) with (slice_offset (SBox r0 r1 c0 c1) (nr g) (nc g)).
+  rewrite (box_embed S (aslice g r0 r1 c0 c1) r0 r1 c0 c1 (nr g) (nc g) tl r c) by (cbn [aslice nr nc]; lia).
+  rewrite (full_embed S). unfold inr.
+  destruct ((r0 <=? r + nr g / 2) && (r + nr g / 2 <? r1) && (c0 <=? c + nc g / 2) && (c + nc g / 2 <? c1)) eqn:Eb;
+    [|reflexivity].
+  replace ((0 <=? r + nr g / 2) && (r + nr g / 2 <? nr g) && ((0 <=? c + nc g / 2) && (c + nc g / 2 <? nc g))) with true by lia.
+  cbn [aslice get]. f_equal; lia.
 Qed.
 End SegmentP.
